@@ -85,17 +85,19 @@ def make_world(rng, repo, features, n_files=None):
             f.write("later\n")
         _g(repo, ["add", "-N", "intent.txt"])
     if "skipwt" in features and "sparse" not in features:
-        _g(repo, ["update-index", "--skip-worktree", rng.choice(paths)])
+        _g(repo, ["update-index", "--skip-worktree", rng.choice(paths)], check=False)
     if "assume" in features:
-        _g(repo, ["update-index", "--assume-unchanged", rng.choice(paths)])
+        _g(repo, ["update-index", "--assume-unchanged", rng.choice(paths)], check=False)
     if "sparse" in features and "conflict" not in features and "reuc" not in features and "ita" not in features:
         dirs = sorted({p.split("/")[0] for p in paths if "/" in p})
         if dirs:
-            _g(repo, ["sparse-checkout", "init", "--cone", "--sparse-index"])
-            _g(repo, ["sparse-checkout", "set", dirs[0]])
+            _g(repo, ["sparse-checkout", "init", "--cone", "--sparse-index"], check=False)
+            _g(repo, ["sparse-checkout", "set", dirs[0]], check=False)
     if "untracked" in features:
         for k in range(rng.randint(0, 3)):
             d = rng.choice(["", "dir", "lib"])
+            if os.path.isfile(os.path.join(repo, d)):
+                d = ""
             os.makedirs(os.path.join(repo, d), exist_ok=True)
             with open(os.path.join(repo, d, "untracked%d" % k), "w") as f:
                 f.write("u\n")
@@ -129,10 +131,10 @@ def q(n):
     return list(struct.pack(">I", n & 0xffffffff))
 
 
-def git_listing(repo, index_file=None):
+def git_listing(repo, index_file=None, extra=()):
     """entries as `git ls-files --stage --debug` reports them, in the JSON shape of the abstract entries"""
     env = {"GIT_INDEX_FILE": index_file} if index_file else None
-    p = git(["ls-files", "--stage", "--debug", "-z"], cwd=repo, env=env, check=False, timeout=600)
+    p = git(["ls-files", "--stage", "--debug", "-z"] + list(extra), cwd=repo, env=env, check=False, timeout=600)
     if p.returncode != 0:
         return None, p.stderr.decode("utf-8", "replace")
     out = p.stdout
